@@ -21,6 +21,40 @@ Section G.
     intros Hl Hc. destruct (C11_round_trip_api K laws O C OL dbg ent sk s msg w0 Hl Hc) as (ct & H1 & _ & H2 & H3 & H4).
     exists ct. rewrite r_pk_sign_crypt, r_scct_is_valid, r_scct_decrypt, r_scdk_decrypt. repeat split; assumption.
   Qed.
+  (* C11: a ciphertext the translated is_valid refuses never decrypts - by key, by decryption key, or by shares *)
+  Theorem generated_invalid_never_decrypts (ct : sc_ct) (sk : car K) (r : option bytes) :
+    gen_SignCryptCiphertext_is_valid E ct = Val false -> gen_SignCryptCiphertext_decrypt E ct sk = Val r -> r = None.
+  Proof. rewrite r_scct_is_valid, r_scct_decrypt. apply (C11_invalid_never_decrypts K O C dbg ct sk r). Qed.
+
+  Theorem generated_invalid_never_decrypts_with_key (ct : sc_ct) (dk : pt K Gpk) (r : option bytes) :
+    gen_SignCryptCiphertext_is_valid E ct = Val false ->
+    gen_SignCryptDecryptionKey_decrypt E dk ct = Val r -> r = None.
+  Proof. rewrite r_scct_is_valid, r_scdk_decrypt. apply (C11_invalid_never_decrypts_with_key K O C dbg ct dk r). Qed.
+
+  Theorem generated_invalid_never_decrypts_with_shares (ct : sc_ct) (shares : list share) (r : option bytes) :
+    gen_SignCryptCiphertext_is_valid E ct = Val false ->
+    gen_SignCryptCiphertext_decrypt_with_shares E ct shares = Val r -> r = None.
+  Proof.
+    rewrite r_scct_is_valid, r_scct_decrypt_with_shares.
+    apply (C11_invalid_never_decrypts_with_shares K O C dbg ct shares r).
+  Qed.
+  (* C11: exact validity condition of the translated BlsSignCrypt::valid, and uniqueness of W *)
+  Theorem generated_signcrypt_valid_exact (u : pt K Gpk) (v : bytes) (w : pt K Gsig) (dst : bytes) :
+    (dbg = true -> Hw K O u v dst <> f0 K) ->
+    exists b : bool,
+      gen_BlsSignCrypt_valid E u v w dst = Val b
+      /\ (b = true <-> dl u <> f0 K /\ dl w <> f0 K /\ dl w = fmul K (dl u) (Hw K O u v dst)).
+  Proof. intros H. rewrite r_sc_valid. apply (C11_valid_exact K laws O dbg u v w dst H). Qed.
+
+  Theorem generated_signcrypt_changed_w_invalid (u : pt K Gpk) (v : bytes) (w w' : pt K Gsig) (dst : bytes) :
+    (dbg = true -> Hw K O u v dst <> f0 K) ->
+    gen_BlsSignCrypt_valid E u v w dst = Val true -> gen_BlsSignCrypt_valid E u v w' dst = Val true -> w' = w.
+  Proof. intros H. rewrite !r_sc_valid. apply (C11_changed_w_invalid K laws O dbg u v w w' dst H). Qed.
 End G.
 
 Print Assumptions generated_sign_crypt_round_trip.
+Print Assumptions generated_invalid_never_decrypts.
+Print Assumptions generated_invalid_never_decrypts_with_key.
+Print Assumptions generated_invalid_never_decrypts_with_shares.
+Print Assumptions generated_signcrypt_valid_exact.
+Print Assumptions generated_signcrypt_changed_w_invalid.
